@@ -159,6 +159,6 @@ def drop_variants(plans, tier):
         out.append(p)
         if p.get("src") in ("d2p", "d2pr", "d2q") and p.get("params", {}).get("catalog") == CAT_D2:
             out.append(dict(p, plan=str(p["plan"]) + "-late", params=dict(p["params"], catalog=CAT_D2_LATE)))
-        if p.get("src") == "d3" and p.get("params", {}).get("catalog") == CAT_D3 and (tier == "thorough" or __import__("zlib").crc32(str(p["plan"]).encode()) % 2 == 0):
+        if p.get("src") == "d3" and p.get("params", {}).get("catalog") == CAT_D3 and (__import__("zlib").crc32(str(p["plan"]).encode()) % (4 if tier == "thorough" else 2) == 0):
             out.append(dict(p, plan=str(p["plan"]) + "-late", params=dict(p["params"], catalog=CAT_D3_LATE)))
     return out
